@@ -1591,7 +1591,7 @@ static void augmentForPresolve(Rng& g, LPData& L)
    int rounds = g.R(0, 3);
    for(int t = 0; t < rounds; t++)
    {
-      int w = g.R(0, 3);
+      int w = g.R(0, 4);
       if(w == 0 && L.n < 7)
       {
          // duplicate (scaled) column, new variable at 0
@@ -1618,6 +1618,20 @@ static void augmentForPresolve(Rng& g, LPData& L)
          int j = g.R(0, L.n - 1); double a = g.coin() ? 2 : -1; std::vector<double> row(L.n, 0.0); row[j] = a; double act = a * L.x[j];
          L.A.push_back(row); L.lhs.push_back(g.coin() ? -infinity : act - g.R(1, 3)); L.rhs.push_back(g.coin() ? infinity : act + g.R(1, 3)); L.y.push_back(0.0); L.m++;
       }
+      else if(w == 4 && L.n < 7 && L.m < 7)
+      {
+         // doubleton equation a x_j + b z = r, coefficients of either sign, z bounded on one side (or both): aggregation transfers z's bounds to x_j
+         int j = g.R(0, L.n - 1); double a = g.R(1, 3) * (g.coin() ? 1 : -1), b = g.R(1, 3) * (g.coin() ? 1 : -1); double z = g.R(-2, 2); double r = a * L.x[j] + b * z;
+         double cz = g.R(-2, 2); double ynew = cz / b; if(ynew != std::ldexp(std::round(std::ldexp(ynew, 8)), -8)) { cz = b * g.R(-1, 1); ynew = cz / b; }   // keep the witness dyadic
+         std::vector<double> row(L.n + 1, 0.0); row[j] = a; row[L.n] = b;
+         for(int i = 0; i < L.m; i++) L.A[i].push_back(0.0);
+         L.A.push_back(row); L.lhs.push_back(r); L.rhs.push_back(r); L.y.push_back(ynew); L.m++;
+         int bt = g.R(0, 2); double zl = -infinity, zu = infinity; if(bt == 0 || bt == 2) zl = z - g.R(0, 2); if(bt == 1 || bt == 2) zu = z + g.R(0, 2);
+         L.c.push_back(cz); L.d.push_back(0.0); L.x.push_back(z); L.lo.push_back(zl); L.up.push_back(zu); L.n++;
+         L.c[j] += a * ynew;
+         // sometimes free the kept variable on one side: only the transferred bound keeps the LP bounded then
+         if(g.coin(1, 3) && L.d[j] == 0) { if(g.coin()) L.lo[j] = -infinity; else L.up[j] = infinity; }
+      }
       else if(w == 3 && L.m >= 1 && L.m < 7)
       {
          // parallel row with consistent, non-binding sides
@@ -1627,10 +1641,16 @@ static void augmentForPresolve(Rng& g, LPData& L)
    }
 }
 typedef std::vector<std::vector<Rational>> QMat;
-// solves M z = r exactly (square); returns false if singular
+// solves M z = r exactly (square); returns false if singular or numerically singular (|det| < 1e-8 * product of the row
+// maxima: such a basis only exists because of rounding inside the reduced LP and no floating-point solver would return it)
 static bool qsolve(QMat M, std::vector<Rational> r, std::vector<Rational>& z)
 {
    int n = (int)M.size();
+   Rational scaleProd(1), det(1);
+   for(int i = 0; i < n; i++) { Rational mx(0); for(int k = 0; k < n; k++) { Rational a = M[i][k] < 0 ? Rational(-M[i][k]) : M[i][k]; if(a > mx) mx = a; } if(mx == 0) return false; scaleProd *= mx; }
+   { QMat D = M; for(int c = 0; c < n; c++) { int p = -1; for(int i = c; i < n; i++) if(D[i][c] != 0) { p = i; break; } if(p < 0) return false; if(p != c) { std::swap(D[p], D[c]); det = -det; } det *= D[c][c];
+        for(int i = c + 1; i < n; i++) if(D[i][c] != 0) { Rational f = D[i][c] / D[c][c]; for(int k = c; k < n; k++) D[i][k] -= f * D[c][k]; } }
+     Rational ad = det < 0 ? Rational(-det) : det; if(ad * Rational(100000000) < scaleProd) return false; }
    for(int c = 0; c < n; c++)
    {
       int p = -1; for(int i = c; i < n; i++) if(M[i][c] != 0) { p = i; break; }
